@@ -40,3 +40,77 @@ claim("C10",
       "to the kernel's documented copy lengths.",
       "ast call-site enumeration + symbolic buffer-size analysis with "
       "reaching definitions")
+
+_ALG = ("abstract interpretation of the DSL's operator dunders on operand "
+        "kinds (evaluator over the ast) + table comparison with the eBPF ISA")
+
+claim("C01",
+      "tables and selectors the value semantics is built from, each a "
+      "necessary condition: Opcode members vs the eBPF ISA, every emitted "
+      "opcode sum a valid instruction, the operator algebra folded for all "
+      "operand-kind combinations (operation, operand order, signedness), "
+      "format->size tables, sign-extension guard/shift/view table, register "
+      "views, constant encoding, signed division lowering, requested width "
+      "honoured, operand search. Does not decide that an arbitrary "
+      "expression tree evaluates exactly (that needs the executed code).",
+      _ALG + "; CFG/reaching-definition check of the width parameter")
+claim("C02",
+      "units-of-measure check of the fixed-point algebra: every operator, "
+      "comparison and store path folded for all operand-kind combinations; "
+      "operands meet at equal FIXED_BASE exponent and the result's exponent "
+      "equals its fixed flag; float->scaled-integer conversions are rounded. "
+      "Does not decide exact rational results of whole trees.",
+      _ALG + " with a scale-exponent (dimension) domain")
+claim("C03",
+      "comparison opcode table (positive/negated, signed/unsigned) folded "
+      "for all operand kinds against the ISA; immediate/register form "
+      "selected consistently; bit-field comparisons; short-circuit table of "
+      "and/or/not folded with recording operands; jump-offset normal form "
+      "and placeholder pairing. Does not decide nesting/sequencing of "
+      "emitted blocks or the JSET/Else splice.",
+      _ALG + "; syntactic normal-form check of jump patching")
+claim("C11",
+      "layout constants = calcsize of the packed formats; Packet.append "
+      "accounting as linear forms incl. check-before-commit; datagram "
+      "header/length word/'more' flag folded for boundary lengths and "
+      "identical datagrams; frame header and padding; sterile-copy "
+      "bookkeeping order. Does not compare whole frames byte by byte.",
+      "constant folding + linear normal forms with reaching definitions + "
+      "finite-domain tabulation of the header expression + CFG dominance")
+claim("C12",
+      "completion guards on every future completion in EtherCat (same "
+      "definition, no await in between); (start, stop, future) tuple "
+      "def-use from Packet.append to process_packet; path-sensitive progress "
+      "check of the overflow retry loop; frame-index ownership; single "
+      "consumer/producer of the send queue; append leaves no trace when it "
+      "rejects. Does not decide event-loop orderings or loss histories.",
+      "CFG + reaching definitions + path facts; small path-sensitive state "
+      "exploration of sendloop's retry cycle")
+claim("C13",
+      "prefix discipline of every format in roundtrip, payload order, "
+      "head/tail split from the front at calcsize(fmt), result shape "
+      "selected by `data is None`/`args` (folded over 15 rows), decode with "
+      "the sizing format, datagram length word. Does not decide the "
+      "value-level round trip.",
+      "syntax/def-use rules on EtherCat.roundtrip + finite-domain folding of "
+      "guards")
+claim("C20",
+      "the FMMU slot claimed is the slot proven free (symbolic check of the "
+      "reversed-slice search for every reaching start, or every path "
+      "through an explicit is-None test), no await between search and "
+      "claim, release of the same slot on all paths incl. cancellation, "
+      "register block of that slot, one context per terminal and direction "
+      "through an AsyncExitStack. Does not observe register writes.",
+      "CFG with cancellation edges + reaching definitions + symbolic index "
+      "arithmetic")
+claim("C24",
+      "static counterpart of cancellation injection: on the CFG with a "
+      "CancelledError edge at every await/async-with/yield, every "
+      "cancellation point while an obligation (OPERATIONAL request, FMMU "
+      "slot, kernel program slot, child process) is held leads through its "
+      "release; handlers do not swallow, except-as names are not read after "
+      "their handler, finally blocks do not return; fast groups await "
+      "inside the registration context. Does not decide double "
+      "cancellation or what terminals observe.",
+      "typestate (acquire/release) analysis on the exceptional CFG + "
+      "reaching definitions with except-as unbinding")
